@@ -498,9 +498,16 @@ class SSETransport(Transport):
                         logger.warning(
                             f"Unexpected response status: {response.status_code}"
                         )
-                        # Try to parse response anyway
+                        # Route the body only if it is a JSON-RPC reply to this request;
+                        # anything else (e.g. a JSON error page) must not stand in for the
+                        # terminal message the caller is waiting for
                         try:
                             response_data = response.json()
+                            if not (
+                                isinstance(response_data, dict)
+                                and response_data.get("id") == request_id
+                            ):
+                                raise ValueError("body is not a reply to this request")
                             await self._route_incoming_message(response_data)
                         except Exception:
                             # Send error response
